@@ -119,7 +119,8 @@ def run_history(job):
 
 def race(job):
     """client A's serve is held at its first staging open while client B syncs; then A is released"""
-    seed, form = job
+    seed, form = job[0], job[1]
+    hold_at = job[2] if len(job) > 2 else "stage"
     rng = random.Random(seed)
     d = CFG["dir"]
     hub = os.path.join(d, "hub")
@@ -162,8 +163,9 @@ def race(job):
                     if line.startswith(b"A "):
                         parts = line.decode("utf8", "replace").split(" ", 8)
                         call, paths = parts[5], parts[8]
-                        if not state["released"] and state["held"] is None and call == "open" and ".copia-tmp" in paths:
-                            state["held"] = x          # A's server is about to stage: hold it here
+                        want_hold = (call == "open" and ".copia-tmp" in paths) if hold_at == "stage" else (call == "flock")
+                        if not state["released"] and state["held"] is None and want_hold:
+                            state["held"] = x          # A's server is about to stage / to take the commit lock: hold it here
                         else:
                             x.sendall(b"g")
             if state["held"] is not None and state["resB"] is not None and not state["released"]:
@@ -192,7 +194,7 @@ def race(job):
     after, conf_a, alien = read_hub(hub)
     ra = resA.get("r", (99, -1, -1, -1, "no result"))
     return [{"kind": "race", "names": NAMES, "form": form, "hub": hub0, "localA": la, "localB": lb, "hub2": after, "conf2": conf_a, "alien": alien,
-             "exitA": ra[0], "sentA": ra[1], "conflictsA": ra[3], "exitB": state["resB"][0], "held": held, "stderrA": ra[4][-160:]}]
+             "exitA": ra[0], "sentA": ra[1], "conflictsA": ra[3], "exitB": state["resB"][0], "held": held, "hold_at": hold_at, "stderrA": ra[4][-160:]}]
 
 
 def large_tree(n):
